@@ -127,7 +127,7 @@ func auditTree(root string, es []entry, id string) {
 
 // shapes: contents and exec bits are concrete choices (the tree machinery is exercised by
 // enumeration); VerifC06_E1_symbolic_file keeps one content and exec bit fully symbolic.
-const nShapes = 8
+const nShapes = 9
 
 func shape(i int) []entry {
 	c := func(n string) string { return []string{"", "x", "xy"}[sym.Choice(n, 3)] }
@@ -148,6 +148,8 @@ func shape(i int) []entry {
 		return []entry{{path: "empty", kind: 1}}
 	case 6:
 		return nil
+	case 8: // links that leave the output directory (a shared file next to it, an absolute path) and a dangling one
+		return []entry{{path: "f", content: c("c1")}, {path: "shared", kind: 2, target: "../shared.txt"}, {path: "sub/abs", kind: 2, target: "/etc/hosts"}, {path: "gone", kind: 2, target: "nowhere"}}
 	}
 	return []entry{{path: "sub/a", content: c("c1")}, {path: "sub2/a", content: c("c2")}, {path: "sub2/b", content: "", exec: x("x1")}}
 }
